@@ -105,6 +105,15 @@ func vEvents(nc *nats.Conn) []vEvent {
 	return append([]vEvent{}, st.events...)
 }
 
+// vServe subscribes handler to subject (a real subscription natively; the
+// engine dispatches matching requests and publishes to it synchronously).
+func vServe(nc *nats.Conn, subject string, handler func(*nats.Msg)) {
+	if _, err := nc.Subscribe(subject, handler); err != nil {
+		panic(vDesync{"subscribe: " + err.Error()})
+	}
+	_ = nc.Flush()
+}
+
 // vGo starts f as a goroutine; the engine runs it to completion at once and
 // replays its channel operations in program order.
 func vGo(f func()) { go f() }
